@@ -208,6 +208,8 @@ def gen_header(rng, n_classes=3, sections=("__published", "public"), allow_inher
                 return rng.choice(["1.0", "0.5", "2.5"])
             if ty == "bool":
                 return rng.choice(["true", "false"])
+            if ty == "const char *":
+                return rng.choice(["nullptr", '"text"', '"a*/b"', '"q\\"uote"', '""', '"tab\\t"'])
             if ty.endswith("*"):
                 return "nullptr"
             if ty.endswith("&"):
